@@ -419,8 +419,15 @@ def tree_5(ctx, rep):
                     and isinstance(r.value.func.value, ast.Constant) and r.value.func.value.value == '':
                 g = r.value.args[0]
                 if isinstance(g, (ast.GeneratorExp, ast.ListComp)) and len(g.generators) == 1 and not g.generators[0].ifs \
-                        and norm(g.generators[0].iter) == 'children' and norm(g.elt) == 'self.visit(%s)' % norm(g.generators[0].target):
-                    ok = True
+                        and norm(g.elt) == 'self.visit(%s)' % norm(g.generators[0].target):
+                    it = g.generators[0].iter
+                    node_param = v.params()[1]
+                    if norm(it) == '%s.children' % node_param:
+                        ok = True
+                    elif isinstance(it, ast.Name):
+                        vals = [norm(a.value) for a in walk_own(v.node) if isinstance(a, ast.Assign)
+                                and any(isinstance(t, ast.Name) and t.id == it.id for t in a.targets)]
+                        ok = vals == ['%s.children' % node_param]
     rep.ob('TREE-5', NORMALIZER, 'Normalizer.visit', "return ''.join(self.visit(child) for child in children)", ok,
            'the default node rendering is not the in-order join of all children')
     # the map lookup: a mapped node / leaf returns its string *whatever that string is* (also ''), everything
